@@ -377,6 +377,44 @@ def _run(ctx, d, pgpy):
                 ctx.skipped.append(r[1])
             continue
         ctx.case('e2e-' + case['subject'], tuple(sorted(case.items())), sample=case)
+    same_object_histories(ctx, pgpy, [n for n in ('ed25519', 'p256', 'rsa2048') if n in names])
+
+
+def same_object_histories(ctx, pgpy, names):
+    """one key OBJECT verifies before and after it becomes disqualified (and after a wrong signature): the verdict must follow
+    the state of the key at the time of the call, never an earlier verification on the same object"""
+    import warnings
+    from datetime import timedelta
+    from pgpy.constants import KeyFlags as F
+    for name in names:
+        with warnings.catch_warnings():
+            warnings.simplefilter('ignore')
+            k = K.get(name)
+            pub = k.pubkey
+            sig = k.sign('history text', created=K.T0 + timedelta(seconds=50))
+            bad = k.sign('other text', created=K.T0 + timedelta(seconds=51))
+            steps = []
+            steps.append(('good-before', bool(pub.verify('history text', sig)), True))
+            steps.append(('wrong-before', bool(pub.verify('history text', bad)), False))
+            steps.append(('good-again', bool(pub.verify('history text', sig)), True))
+            # the key expires: a newer self-certification with an expiry in the past is merged into the SAME objects
+            uid = k.userids[0]
+            newsig = k.certify(uid, key_expiration=timedelta(seconds=5), usage={F.Sign, F.Certify}, created=K.T0 + timedelta(seconds=60))
+            uid |= newsig
+            pub.userids[0] |= pgpy.PGPSignature.from_blob(bytes(newsig))
+            expired = bool(pub.is_expired) and bool(k.is_expired)
+            steps.append(('expired-pub', bool(pub.verify('history text', sig)), False))
+            steps.append(('expired-priv', bool(k.verify('history text', sig)), False))
+            fresh = pgpy.PGPKey.from_blob(bytes(pub))[0]
+            steps.append(('expired-fresh-copy', bool(fresh.verify('history text', sig)), False))
+        case = {'op': 'history', 'key': name, 'steps': [[a, b] for a, b, c in steps]}
+        ctx.case('same-object-history', name, sample=case)
+        if not expired:
+            ctx.fail('same-object-history', 'harness: key did not become expired', case); continue
+        for what, got, want in steps:
+            if got != want:
+                ctx.fail('same-object-history', 'verdict of step %s is %s: it does not follow the state of the key at the time of the call' % (what, got), case)
+                break
 
 
 def replay(ctx, case):
